@@ -68,6 +68,35 @@ def _with_cond(g, cond, bb=None):
 ITER_CONSUMERS = {'try_for_each': 'try', 'all': 'all', 'any': 'any'}
 
 
+def negate_atom(a):
+    """the atom that holds exactly when `a` does not, for comparisons and variant tests; None when there is no single such atom"""
+    if a[0] == 'cmp':
+        op, x, y = a[1], a[2], a[3]
+        if op == 'Eq':
+            if x == '0' and y.startswith('len('):
+                return ('cmp', 'Le', '1', y)
+            return ('cmp', 'Ne', x, y)
+        if op == 'Ne':
+            return ('cmp', 'Eq', x, y)
+        if op == 'Le':
+            if x == '1' and y.startswith('len('):
+                return ('cmp', 'Eq', '0', y)
+            if x.lstrip('-').isdigit():
+                return ('cmp', 'Le', y, repr(int(x) - 1))          # not (c <= y)  ==  y <= c-1
+            if y.lstrip('-').isdigit():
+                return ('cmp', 'Le', repr(int(y) + 1), x)          # not (x <= c)  ==  c+1 <= x
+            return ('cmp', 'Lt', y, x)
+        if op == 'Lt':
+            return ('cmp', 'Le', y, x)
+    if a[0] == 'succ':
+        return ('fail', a[1])
+    if a[0] == 'fail':
+        return ('succ', a[1])
+    if a[0] == 'pred' and len(a) == 4:
+        return ('pred', a[1], a[2], not a[3])
+    return None
+
+
 def _combine_eff(a, b):
     if 'bypass' in (a, b):
         return 'bypass'
@@ -105,18 +134,46 @@ def _rows(ctx, body, xf, octx, oeff, site_bb, depth, rows, parent):
             if len(alts) > 1:
                 want = g.reject_when_false()          # value the flag must have for the guard to accept
                 new_rows, okall = [], True
+                # `a && b && c` (and `a || b`): the flag is a constant on the paths where an earlier operand already decided it.  A path
+                # on which the flag is the rejecting constant, reached under the single further condition E, is the accept-atom not-E;
+                # conditions established that way need not be repeated in the context of the later operands
+                established = set()
+                consts, others, accepting_consts = [], [], []
                 for (t_alt, dbb) in alts:
                     ta = xf(t_alt)
+                    extra = [x for x in path_ctx(ctx, body, dbb, gbbs, xf) if x not in pc]
                     if ta.tag == 'const' and (isinstance(ta[1], bool) or ta[1] in (0, 1)):
                         if bool(ta[1]) == want:
+                            accepting_consts.append((ta, dbb, extra))
                             continue
-                        atoms = [('const', False)]
+                        consts.append((ta, dbb, extra))
                     else:
-                        atoms = bool_atom(ta, positive=want)
+                        others.append((ta, dbb, extra))
+                if len(others) == 1 and not accepting_consts and consts:
+                    # every other definition is the rejecting constant: acceptance goes through this definition, so the conditions
+                    # under which it is reached and its own value are all necessary (`a && b && c`: reached under a, b; value c)
+                    ta, dbb, extra = others[0]
+                    atoms = bool_atom(ta, positive=want)
+                    if not any(a[0] == 'unknown' for a in atoms) and not any(e[0] in ('unknown', 'forall') for e in extra):
+                        for e in extra:
+                            rows.append({'guard': _with_cond(g, ta, site_bb), 'ctx': pc, 'atoms': [e], 'eff': eff, 'parent': me, 'spliced': True})
+                        rows.append({'guard': _with_cond(g, ta, site_bb), 'ctx': pc, 'atoms': atoms, 'eff': eff, 'parent': me, 'spliced': True})
+                        consts, others = [], []
+                for (ta, dbb, extra) in sorted(consts, key=lambda x: len(x[2])):
+                    rem = [e for e in extra if e not in established]
+                    neg = negate_atom(rem[0]) if len(rem) == 1 else None
+                    if neg is not None:
+                        established.add(neg)
+                        new_rows.append({'guard': _with_cond(g, ta, site_bb), 'ctx': pc, 'atoms': [neg], 'eff': eff, 'parent': me, 'spliced': True})
+                    else:
+                        pc3 = tuple(sorted(set(pc) | set(extra), key=repr))
+                        new_rows.append({'guard': _with_cond(g, ta, site_bb), 'ctx': pc3, 'atoms': [('const', False)], 'eff': eff, 'parent': me, 'spliced': True})
+                for (ta, dbb, extra) in others:
+                    atoms = bool_atom(ta, positive=want)
                     if any(a[0] == 'unknown' for a in atoms):
                         okall = False
                         break
-                    pc3 = tuple(sorted(set(pc) | set(path_ctx(ctx, body, dbb, gbbs, xf)), key=repr))
+                    pc3 = tuple(sorted(set(pc) | {e for e in extra if e not in established}, key=repr))
                     new_rows.append({'guard': _with_cond(g, ta, site_bb), 'ctx': pc3, 'atoms': atoms, 'eff': eff, 'parent': me, 'spliced': True})
                 if okall:
                     rows.extend(new_rows)
